@@ -772,8 +772,12 @@ class IntegratePlanar:
         """
         xvals = tuple(point[0] for point in ctrlpoints)
         yvals = tuple(point[1] for point in ctrlpoints)
-        outside = center[0] < min(xvals) or max(xvals) < center[0]
-        outside = outside or center[1] < min(yvals) or max(yvals) < center[1]
+        # A center on the line of the chord gives an ambiguous half turn:
+        # it must be clearly outside the box to use the chord
+        tol = 1e-9
+        outside = center[0] < min(xvals) - tol or max(xvals) + tol < center[0]
+        outside = outside or center[1] < min(yvals) - tol
+        outside = outside or max(yvals) + tol < center[1]
         if outside or depth == 0:
             return IntegratePlanar.winding_number_linear(
                 ctrlpoints[0], ctrlpoints[-1], center
